@@ -1,11 +1,11 @@
 CONSTANTS
-  Publishers = {"A"}
-  Readers = {}
+  Publishers = {"A", "B"}
+  Readers = {"r"}
   RemoteReaders = {}
   Keys <- KeysSeq
-  HasCache = FALSE
+  HasCache = TRUE
   MaxFaults = 1
-  InitEpochs = 1
+  InitEpochs = 0
   ReaderLag = 0
   RecheckEpochAfterBegin = TRUE
   FlagHeldThroughDbWrite = TRUE
@@ -13,9 +13,7 @@ CONSTANTS
   PrevEpochChecked = TRUE
   ReadersSeePendingEpoch = FALSE
   RollbackReleasesFlag = TRUE
-  ExportSched = FALSE
-VIEW View
-INIT MCInit
-NEXT MCNext
-INVARIANTS AtomicFailure NoTxnLeftOpen ReturnedPairsStayPublished
+SPECIFICATION FairSpec
+PROPERTIES EveryCallReturns FlagEventuallyReleased
+INVARIANTS EpochsDistinct ReturnedPairsStayPublished NoTxnLeftOpen AnswersArePublished
 CHECK_DEADLOCK FALSE
